@@ -12,6 +12,10 @@ From Coq Require Import List ZArith Bool.
 Import ListNotations.
 From Omega Require Import L5Cover.Boxes L5Cover.BoxesProofs L5Cover.ListExpr
   L5Cover.ListExprProofs.
+From Coq Require Import Permutation.
+From Omega Require Import L0Bits.Bits L5Cover.ListExprNorm.
+From OmegaGen Require Import BitsGen ListExprGen.
+From OmegaGP Require Import ListExprBridge.
 Open Scope Z_scope.
 
 (* first sentence: for ANY cover K of f by boxes inside [f or outside care]
@@ -114,6 +118,181 @@ Example C08_instance :
 Proof. cbv zeta. split; [vm_compute; reflexivity|]. split; [vm_compute; reflexivity|].
   eexists. split; vm_compute; reflexivity. Qed.
 
+(* ------------------------------------------------------------------ tie T
+   The printing functions are TRANSLATED from the current source on every run
+   (tools/py2coq_listexpr.py -> gen/ListExprGen.v: _clip_subrange,
+   _check_type_hint, _format_range, _list_type_hints, _list_limits,
+   vertical_op, list_expr, dumps_cover) and GenProofs/ListExprBridge.v proves
+   the generated terms equal to the model the theorems above talk about.
+
+   Reading of the model's data as arguments of the translated code: variable
+   i of the model is the i-th name in natural sort order
+   ([natsorted_names xvars = seq 0 n]); a box b is the product
+   [prod_of b : i |-> nth i b]; the BDD `cover` is (its variables, its
+   products); the table maps variable i to a type hint whose 'dom' is
+   [nth i doms] and whose bit-field limits (translated _bitfield_limits of
+   gen/BitsGen.v) are [nth i limits]; natsort on the printed disjuncts is any
+   function returning a permutation of its argument.
+
+   Equality: the generated dumps_cover and the model's have the same tree up
+   to the association of /\ and \/ ([ListExprNorm.norm]; the code writes three
+   conjuncts per line, the model one flat conjunction), for the model applied
+   to the boxes in the order K' in which natsort lists the disjuncts. *)
+Theorem C08_printer_is_translated_code :
+  forall (natsorted_names : list var -> list var)
+         (natsorted_forms : list expr -> list expr),
+  (forall l, Permutation l (natsorted_forms l)) ->
+  forall (xvars : list var) (vars : table) (limits doms : list ival),
+  natsorted_names xvars = seq 0 (length limits) ->
+  xvars <> [] ->
+  length doms = length limits ->
+  (forall i, (i < length limits)%nat ->
+     bitfield_limits (vars i) = Some (nth i limits (0, 0))) ->
+  (forall i, (i < length limits)%nat ->
+     h_dom (vars i) = nth i doms (0, 0)) ->
+  forall care care_is_true show_dom show_limits comment K,
+  Forall (fun b => length b = length limits) K ->
+  exists K', Permutation K K' /\
+  option_map norm
+    (cov_dumps_cover natsorted_names natsorted_forms
+       (seq 0 (length limits), map prod_of K) vars
+       show_dom show_limits comment xvars
+       (care_implies_hints limits doms care) care_is_true) =
+  option_map norm
+    (dumps_cover limits doms care care_is_true show_dom show_limits K').
+Proof. exact dumps_cover_is_translated_code. Qed.
+
+(* [norm] only re-associates: equal normal forms denote the same predicate,
+   and list the same conjuncts / disjuncts in the same order *)
+Theorem C08_norm_preserves_meaning : forall p e, eval p (norm e) = eval p e.
+Proof. exact eval_norm. Qed.
+Theorem C08_norm_conj : forall l,
+  norm (conj l) = conj (flat_map (fun e => conjuncts (norm e)) l).
+Proof. exact norm_conj. Qed.
+Theorem C08_norm_disj : forall l,
+  norm (disj l) = disj (flat_map (fun e => disjuncts (norm e)) l).
+Proof. exact norm_disj. Qed.
+
+(* orthotopes.list_expr: disjunct by disjunct *)
+Theorem C08_list_expr_is_translated_code :
+  forall (natsorted_forms : list expr -> list expr),
+  (forall l, Permutation l (natsorted_forms l)) ->
+  forall (vars : table) (limits doms : list ival),
+  length doms = length limits ->
+  (forall i, (i < length limits)%nat ->
+     bitfield_limits (vars i) = Some (nth i limits (0, 0))) ->
+  (forall i, (i < length limits)%nat ->
+     h_dom (vars i) = nth i doms (0, 0)) ->
+  forall use_dom K,
+  Forall (fun b => length b = length limits) K ->
+  exists K', Permutation K K' /\
+  match lat_list_expr natsorted_forms (seq 0 (length limits), map prod_of K)
+          vars false use_dom,
+        list_expr use_dom doms K' with
+  | Some gs, Some ms => Forall2 (fun g m => norm g = norm m) gs ms
+  | None, None => True
+  | _, _ => False
+  end.
+Proof.
+  intros nf Hp vars limits doms Hlen Hlim Hdom.
+  exact (list_expr_is_translated_code nf Hp vars limits doms Hlen Hlim Hdom).
+Qed.
+
+(* Leibniz equalities *)
+Theorem C08_clip_is_translated_code : forall ab dom x,
+  tyh_clip_subrange ab dom x =
+  match clip_subrange ab dom with
+  | None => None
+  | Some None => Some (None, None)
+  | Some (Some (a, b)) => Some (Some a, Some b)
+  end.
+Proof. exact clip_subrange_is_translated_code. Qed.
+
+Theorem C08_vertical_op_is_translated_code : forall c op spacing,
+  stx_vertical_op c op spacing =
+  Some (match op with JAnd => conj c | JOr => disj c end).
+Proof. exact vertical_op_is_translated_code. Qed.
+
+Theorem C08_list_limits_is_translated_code :
+  forall natsorted_names xvars vars limits,
+  natsorted_names xvars = seq 0 (length limits) -> xvars <> [] ->
+  (forall i, (i < length limits)%nat ->
+     bitfield_limits (vars i) = Some (nth i limits (0, 0))) ->
+  tyh_list_limits natsorted_names xvars vars = Some (range_atoms 0 limits).
+Proof.
+  intros nn xvars vars limits Hs Hne Hl.
+  exact (list_limits_is_translated_code nn xvars vars (length limits) Hs Hne
+           limits eq_refl Hl).
+Qed.
+
+Theorem C08_list_type_hints_is_translated_code :
+  forall natsorted_names xvars vars doms,
+  natsorted_names xvars = seq 0 (length doms) -> xvars <> [] ->
+  (forall i, (i < length doms)%nat -> h_dom (vars i) = nth i doms (0, 0)) ->
+  tyh_list_type_hints natsorted_names xvars vars = Some (range_atoms 0 doms).
+Proof.
+  intros nn xvars vars doms Hs Hne Hd.
+  exact (list_type_hints_is_translated_code nn xvars vars (length doms) Hs Hne
+           doms eq_refl Hd).
+Qed.
+
+(* the main theorem restated for what the TRANSLATED printer returns *)
+Theorem C08_translated_dnf_equiv_on_care :
+  forall (natsorted_names : list var -> list var)
+         (natsorted_forms : list expr -> list expr),
+  (forall l, Permutation l (natsorted_forms l)) ->
+  forall (xvars : list var) (vars : table) (limits doms : list ival),
+  natsorted_names xvars = seq 0 (length limits) ->
+  xvars <> [] ->
+  length doms = length limits ->
+  (forall i, (i < length limits)%nat ->
+     bitfield_limits (vars i) = Some (nth i limits (0, 0))) ->
+  (forall i, (i < length limits)%nat ->
+     h_dom (vars i) = nth i doms (0, 0)) ->
+  forall f care K care_is_true show_dom show_limits comment e,
+  covers limits f K ->
+  (forall b, In b K -> implicant limits f care b) ->
+  cov_dumps_cover natsorted_names natsorted_forms
+    (seq 0 (length limits), map prod_of K) vars
+    show_dom show_limits comment xvars
+    (care_implies_hints limits doms care) care_is_true = Some e ->
+  forall p, in_ranges limits p -> care p = true -> eval p e = f p.
+Proof. exact translated_dnf_equiv_on_care. Qed.
+
+Theorem C08_translated_clip_preserves : forall a b u v x r,
+  tyh_clip_subrange (a, b) (u, v) x = Some r ->
+  match r with
+  | (None, None) => forall z, u <= z <= v -> a <= z <= b
+  | (Some a', Some b') =>
+      a' <= b' /\ u <= a' /\ b' <= v /\
+      forall z, u <= z <= v -> (a <= z <= b <-> a' <= z <= b')
+  | _ => False
+  end.
+Proof. exact translated_clip_preserves. Qed.
+
+(* non-vacuity of the hypotheses of the tie-T theorems *)
+Example C08_translated_instance :
+  let limits := [(0, 3); (0, 1)] in
+  let doms := [(0, 2); (0, 1)] in
+  let care := mem_pt [[0;0]; [0;1]; [1;0]; [1;1]; [2;0]; [2;1]] in
+  let K := [[(0,0);(0,1)]; [(2,3);(1,1)]] in
+  (forall i, (i < length limits)%nat ->
+     bitfield_limits (ex_vars i) = Some (nth i limits (0, 0)) /\
+     h_dom (ex_vars i) = nth i doms (0, 0)) /\
+  care_implies_hints limits doms care = true /\
+  option_map norm
+    (cov_dumps_cover (fun l => l) (fun l => l) (seq 0 2, map prod_of K)
+       ex_vars true true true [O; 1%nat]
+       (care_implies_hints limits doms care) false) =
+  option_map norm (dumps_cover limits doms care false true true K) /\
+  option_map (map norm)
+    (lat_list_expr (fun l => l)
+       (seq 0 4, map prod_of [[(0,0);(0,1);(2,3);(1,1)]])
+       (fun _ => mkHint 3 false (0,7)) false false) =
+  Some [conj [ECmp CEq (TVar 0) (TNum 0); EIn (TVar 1) (TNum 0) (TNum 1);
+              EIn (TVar 2) (TNum 2) (TNum 3); ECmp CEq (TVar 3) (TNum 1)]].
+Proof. exact translated_instance. Qed.
+
 Print Assumptions C08_dnf_equiv_on_care.
 Print Assumptions C08_clip_preserves.
 Print Assumptions C08_clip_defined.
@@ -122,3 +301,14 @@ Print Assumptions C08_disjunct_nonempty_clipped.
 Print Assumptions C08_disjunct_nonempty_plain.
 Print Assumptions C08_box_denotation.
 Print Assumptions C08_printed_ok_correct.
+Print Assumptions C08_printer_is_translated_code.
+Print Assumptions C08_norm_preserves_meaning.
+Print Assumptions C08_norm_conj.
+Print Assumptions C08_norm_disj.
+Print Assumptions C08_list_expr_is_translated_code.
+Print Assumptions C08_clip_is_translated_code.
+Print Assumptions C08_vertical_op_is_translated_code.
+Print Assumptions C08_list_limits_is_translated_code.
+Print Assumptions C08_list_type_hints_is_translated_code.
+Print Assumptions C08_translated_dnf_equiv_on_care.
+Print Assumptions C08_translated_clip_preserves.
